@@ -4,8 +4,9 @@
     [table_ok], [cfg_ok], [order_ok], [entflags_ok], ... which checks/c16.py discharges on every run
     (instance obligations, vm_compute).  The FGD grammar itself is not modelled (search only). *)
 From Coq Require Import List NArith Arith Bool String.
-From SV Require Import Fmt.LongString Fmt.LongStringProofs Fmt.FgdBin Fmt.FgdBinProofs SM.LazyDb SM.LazyDbProofs.
+From SV Require Import Fmt.LongString Fmt.LongStringProofs Fmt.FgdBin Fmt.FgdBinProofs SM.LazyDb SM.LazyDbProofs SM.LazyDbMulti SM.LazyDbMultiProofs.
 From SV Require Import Fmt.FgdBinEnt Fmt.FgdBinEntProofs Fmt.FgdLine Fmt.FgdLineProofs Fmt.FgdLineTextProofs Fmt.FgdBody Fmt.FgdBodyProofs.
+From SV Require Import Fmt.FgdHead Fmt.FgdHeadProofs Fmt.FgdEntity Fmt.FgdEntityProofs.
 From SV Require Import Gen.FgdConsts_gen.
 Import ListNotations.
 Open Scope N_scope.
@@ -267,6 +268,72 @@ Definition empty_resources_need_block : bool :=
   | _, _ => false
   end.
 
+(** * The entity header and the whole entity definition (token level, Fmt/FgdHead.v, Fmt/FgdEntity.v; round 3) *)
+(** Helper objects are abstract: [known n] = `HelperTypes(n)` succeeds, [hparse n args] = `HELPER_IMPL[HelperTypes(n)].parse(args)`
+    (None = it raises), [hunknown n args] = `UnknownHelper(n, args)`.  [form_ok f h]: the written form [f] of a helper (bare name /
+    name(args)) is read back as the object [h]; arguments and base names are non-empty, stripped and without ','; a helper is not
+    called base, aliasof or autovis.  [secs] = the '+' sections of the description (none for an empty description).
+    The header as EntityDef.export writes it — `base(..)` or `aliasof(..)` when there are bases, one helper per line, `= classname`,
+    `: description`, `[` — is read back by EntityDef.parse (from the token after `@PointClass`) as the same bases in the same
+    order, the alias flag (extended syntax only), the same helper objects in the same order, the class name and the description,
+    and the parser stops right after the `[`. *)
+Theorem c16_entity_header_roundtrip :
+  forall (H : Type) (known : str -> bool) (hparse : str -> list str -> option H) (hunknown : str -> list str -> H),
+  known KW_BASE = true -> known KW_ALIASOF = false ->
+  forall (custom alias : bool) (bases : list str) (forms : list hform) (hidden : bool) (hs : list H) (cls : str) (secs : list str) (rest : list tok),
+  bases_ok bases -> Forall2 (form_ok H known hparse hunknown) forms hs -> strip cls = cls ->
+  head_read H known hparse hunknown (head_toks custom alias bases forms hidden cls secs ++ rest)
+  = Some (mk_head H (match bases with [] => false | _ => alias && custom end) bases hs cls (List.concat secs), rest).
+Proof. exact head_roundtrip. Qed.
+
+(** the `(a, b, c)` of a helper or of base(): `', '.join(args)` is split at ',' and stripped back to the arguments *)
+Theorem c16_helper_args_roundtrip : forall args, Forall arg_ok args -> paren_args (join_cs args) = args.
+Proof. exact paren_args_join. Qed.
+
+(** Composition of the header with [c16_entity_body_roundtrip]: a WHOLE entity definition as written — header, `[`, keyvalue / input /
+    output lines, @resources, `]` — is read back as the same header fields and the same body. *)
+Theorem c16_entity_text_roundtrip :
+  forall (tag_norm : str -> str) (tags_valid : list str -> bool) (vt : Type) (vt_text : vt -> str) (vt_lookup : str -> option (bool * vt))
+         (vt_is_bool vt_is_flags vt_is_choices : vt -> bool) (io_text : vt -> str) (io_lookup : str -> option vt) (io_decay : vt -> vt)
+         (dec : N -> str) (undec : str -> option N) (pow2 : N -> bool) (cfg : line_cfg) (rt : Type) (rt_text : rt -> str)
+         (rt_lookup : str -> option rt)
+         (H : Type) (known : str -> bool) (hparse : str -> list str -> option H) (hunknown : str -> list str -> H),
+  (forall v, vt_lookup (vt_text v) = Some (false, v)) -> (forall v, io_lookup (io_text v) = Some (io_decay v)) ->
+  (forall n, undec (dec n) = Some n) -> (forall t, rt_lookup (rt_text t) = Some t) ->
+  colons_before_desc_without_default cfg = 2%nat -> res_block_if_defined cfg = true ->
+  known KW_BASE = true -> known KW_ALIASOF = false ->
+  forall (label custom alias : bool) (bases : list str) (forms : list hform) (hidden : bool) (hs : list H) (cls : str) (secs : list str)
+         (items : list (nat * item vt)) (res : resources rt) (rest : list tok),
+  bases_ok bases -> Forall2 (form_ok H known hparse hunknown) forms hs -> strip cls = cls ->
+  Forall (item_wf tag_norm tags_valid vt vt_is_bool vt_is_flags vt_is_choices dec pow2 cfg label) (map snd items) ->
+  match res with Some l => Forall (riwf tag_norm tags_valid rt) l | None => True end ->
+  entity_read tag_norm tags_valid vt vt_lookup vt_is_bool vt_is_flags vt_is_choices io_lookup dec undec pow2 rt rt_lookup H known hparse hunknown
+    (entity_toks vt vt_text vt_is_bool vt_is_flags io_text dec cfg rt rt_text label custom alias bases forms hidden cls secs items res ++ rest)
+  = Some (mk_head H (match bases with [] => false | _ => alias && custom end) bases hs cls (List.concat secs),
+          with_res vt rt (fold_left (add_item vt vt_is_bool io_decay cfg rt custom) (map snd items) (mk_body vt rt [] [] [] None))
+                   (if custom then res else None),
+          rest).
+Proof. exact entity_roundtrip. Qed.
+
+(** One concrete header (non-vacuity): `aliasof(A, B)` NEWLINE `s(1 2, 3)` NEWLINE `h` NEWLINE `u(x)` NEWLINE `= e : "de" + "sc"` NEWLINE `[`
+    with the known helper types base, s, h; helper objects are (name, arguments).  And two limits of the format that the premises
+    exclude: an unknown helper written WITHOUT parentheses is forgotten when the next helper name arrives, and an argument that
+    contains a comma comes back as two. *)
+Definition xh_known (n : str) : bool := str_eqb n KW_BASE || str_eqb n [115] || str_eqb n [104].
+Definition xh_parse (n : str) (a : list str) : option (str * list str) := Some (n, a).
+Definition xh_read := head_read (str * list str) xh_known xh_parse (fun n a => (n, a)).
+Example c16_entity_header_example :
+  xh_read (head_toks true true [[65]; [66]] [HCall [115] [[49; 32; 50]; [51]]; HBare [104]; HCall [117] [[120]]] false [101] [[100; 101]; [115; 99]] ++ [TNl])
+  = Some (mk_head _ true [[65]; [66]] [([115], [[49; 32; 50]; [51]]); ([104], []); ([117], [[120]])] [101] [100; 101; 115; 99], [TNl])
+  /\ xh_known KW_BASE = true /\ xh_known KW_ALIASOF = false.
+Proof. split; [vm_compute; reflexivity|split; reflexivity]. Qed.
+Example c16_bare_unknown_helper_refuted :
+  option_map (fun x => h_helpers _ (fst x)) (xh_read [TStr [117]; TNl; TStr [118]; TParen []; TNl; TEq; TStr [101]; TNl; TBrOpen])
+  = Some [([118], [])].
+Proof. vm_compute. reflexivity. Qed.
+Example c16_comma_in_argument_refuted : paren_args (join_cs [[97; 44; 98]]) = [[97]; [98]].
+Proof. vm_compute. reflexivity. Qed.
+
 (** * Binary database: tables and bit packings *)
 (** VALUE_TYPE_ORDER / FILE_TYPE_ORDER: the index written for an enum member reads back as that member
     and fits in 7 bits (the order list may contain a member twice; the last index is the one written). *)
@@ -378,10 +445,10 @@ Definition layout_kv_reader_ok : bool := layout_is "kv_unserialise"
 Definition layout_io_ok : bool := layout_is "iodef_serialise" ["str"; "u8"] && layout_is "iodef_unserialise" ["str"; "u8"].
 Definition layout_ent_writer_ok : bool := layout_is "ent_serialise"
   ["hdr:_.value,len(_.bases),len(_.keyvalues),len(_.inputs),len(_.outputs),len(_.resources)";
-   "loop(_.bases){"; "if(isinstance(_, str)){"; "str"; "}else{"; "str"; "}"; "}";
+   "loop(_.bases){"; "str"; "}";
    "loop(_._iter_attrs()){"; "loop(_.items()){"; "if(len(_) == 1){"; "if(not _){"; "if(isinstance(_, KVDef)){"; "kv"; "}else{";
    "if(isinstance(_, IODef)){"; "io"; "}else{"; "raise"; "}"; "}"; "}"; "}"; "raise"; "}"; "}";
-   "loop(_.resources){"; "if(_.tags){"; "u8"; "tags"; "}else{"; "u8"; "}"; "str"; "}"].
+   "loop(_.resources){"; "u8"; "if(_.tags){"; "tags"; "}"; "str"; "}"].
 Definition layout_ent_reader_ok : bool := layout_is "ent_unserialise"
   ["hdr6"; "loop(h1){"; "str"; "}"; "loop(h2){"; "kv"; "}"; "loop(h3){"; "io"; "}"; "loop(h4){"; "io"; "}";
    "if(h5){"; "loop(h5){"; "u8"; "if(r1 & 128){"; "tags"; "}"; "str"; "}"; "}"].
@@ -520,3 +587,118 @@ Theorem c16_base_lookups_terminate :
   forall (via : bool) (B : list (block name bytes)) f qs, (List.length B <= f)%nat ->
   oof _ _ _ (snd (run_queries name ent bytes name_eqb decode ent_bases is_empty empty_bytes via f (init name ent bytes B) qs)) = false.
 Proof. exact base_lookups_terminate. Qed.
+
+(** * Several databases (add_engine_database): EntityDef.engine_def vs FGD.engine_dbase  (round 3)
+    [Bs] = the list of files in the order of `_ENGINE_DB` (an added database comes first); every file is well formed as in the
+    single-database theorems ([file_ok]: no class name twice inside one file, every block has data) — the SAME class name in
+    two files is exactly the case of interest.  [engine_dbase_merge] (Gen) is the shape of the merge loop of FGD.engine_dbase
+    read from the source: [FirstWins] = a class name that is already present is kept, [LastWins] = it is overwritten. *)
+Definition merge_is_first (m : merge_mode) : bool := match m with FirstWins => true | LastWins => false end.
+Definition multi_modes_agree : bool := merge_is_first engine_dbase_merge && engine_def_returns_first_hit.
+
+(** one at a time (first database that knows the class), in any order and with any repetitions, on a fresh list of databases
+    = the merged whole database, answers including what every stored base name was replaced by *)
+Theorem c16_multi_lazy_equals_eager :
+  forall (name ent bytes : Type) (name_eqb : name -> name -> bool),
+  (forall a b, name_eqb a b = true <-> a = b) ->
+  forall (decode : list name -> bytes -> list ent),
+  (forall cs data, List.length (decode cs data) = List.length cs) ->
+  forall (ent_bases : ent -> list name) (is_empty : bytes -> bool) (empty_bytes : bytes),
+  is_empty empty_bytes = true ->
+  forall (via : bool), via = true ->
+  forall (f g : nat) (Bs : list (list (block name bytes))) (qs : list name),
+  Forall (file_ok name bytes is_empty) Bs ->
+  Forall (fun B => (List.length B <= f)%nat) Bs -> Forall (fun B => (List.length B <= g)%nat) Bs ->
+  fst (run_defs name ent bytes name_eqb decode ent_bases is_empty empty_bytes via f (map (init name ent bytes) Bs) qs)
+  = map (engine_dbase name ent bytes name_eqb decode ent_bases is_empty empty_bytes via FirstWins g Bs) qs.
+Proof. exact multi_lazy_equals_eager. Qed.
+
+(** and that common answer is the content of the FIRST file that defines the class (an added database overrides) *)
+Theorem c16_multi_eager_is_first_file :
+  forall (name ent bytes : Type) (name_eqb : name -> name -> bool),
+  (forall a b, name_eqb a b = true <-> a = b) ->
+  forall (decode : list name -> bytes -> list ent),
+  (forall cs data, List.length (decode cs data) = List.length cs) ->
+  forall (ent_bases : ent -> list name) (is_empty : bytes -> bool) (empty_bytes : bytes),
+  is_empty empty_bytes = true ->
+  forall (via : bool), via = true ->
+  forall (g : nat) (Bs : list (list (block name bytes))) (c : name),
+  Forall (file_ok name bytes is_empty) Bs -> Forall (fun B => (List.length B <= g)%nat) Bs ->
+  engine_dbase name ent bytes name_eqb decode ent_bases is_empty empty_bytes via FirstWins g Bs c
+  = multi_spec name ent bytes name_eqb decode ent_bases Bs c.
+Proof. exact engine_dbase_first. Qed.
+
+(** the overwriting merge (dict.update) answers with the LAST file that defines the class ... *)
+Theorem c16_multi_overwrite_is_last_file :
+  forall (name ent bytes : Type) (name_eqb : name -> name -> bool),
+  (forall a b, name_eqb a b = true <-> a = b) ->
+  forall (decode : list name -> bytes -> list ent),
+  (forall cs data, List.length (decode cs data) = List.length cs) ->
+  forall (ent_bases : ent -> list name) (is_empty : bytes -> bool) (empty_bytes : bytes),
+  is_empty empty_bytes = true ->
+  forall (via : bool), via = true ->
+  forall (g : nat) (Bs : list (list (block name bytes))) (c : name),
+  Forall (file_ok name bytes is_empty) Bs -> Forall (fun B => (List.length B <= g)%nat) Bs ->
+  engine_dbase name ent bytes name_eqb decode ent_bases is_empty empty_bytes via LastWins g Bs c
+  = multi_spec_last name ent bytes name_eqb decode ent_bases Bs c.
+Proof. exact engine_dbase_last. Qed.
+
+(** ... so with it the look-up and the whole database disagree on EVERY class whose first and last definitions differ *)
+Theorem c16_multi_overwrite_refuted :
+  forall (name ent bytes : Type) (name_eqb : name -> name -> bool),
+  (forall a b, name_eqb a b = true <-> a = b) ->
+  forall (decode : list name -> bytes -> list ent),
+  (forall cs data, List.length (decode cs data) = List.length cs) ->
+  forall (ent_bases : ent -> list name) (is_empty : bytes -> bool) (empty_bytes : bytes),
+  is_empty empty_bytes = true ->
+  forall (via : bool), via = true ->
+  forall (f g : nat) (Bs : list (list (block name bytes))) (c : name),
+  Forall (file_ok name bytes is_empty) Bs ->
+  Forall (fun B => (List.length B <= f)%nat) Bs -> Forall (fun B => (List.length B <= g)%nat) Bs ->
+  multi_spec name ent bytes name_eqb decode ent_bases Bs c <> multi_spec_last name ent bytes name_eqb decode ent_bases Bs c ->
+  fst (run_defs name ent bytes name_eqb decode ent_bases is_empty empty_bytes via f (map (init name ent bytes) Bs) [c])
+  <> [engine_dbase name ent bytes name_eqb decode ent_bases is_empty empty_bytes via LastWins g Bs c].
+Proof. exact multi_overwrite_differs. Qed.
+
+(** the shortcut `if len(databases) == 1: return databases[0].get_fgd()` is the merge of one database, whatever the merge does *)
+Theorem c16_engine_dbase_single_shortcut :
+  forall (name ent bytes : Type) (name_eqb : name -> name -> bool),
+  (forall a b, name_eqb a b = true <-> a = b) ->
+  forall (decode : list name -> bytes -> list ent),
+  (forall cs data, List.length (decode cs data) = List.length cs) ->
+  forall (ent_bases : ent -> list name) (is_empty : bytes -> bool) (empty_bytes : bytes),
+  is_empty empty_bytes = true ->
+  forall (via : bool), via = true ->
+  forall (mode : merge_mode) (g : nat) (B : list (block name bytes)) (c : name),
+  file_ok name bytes is_empty B -> (List.length B <= g)%nat ->
+  engine_dbase name ent bytes name_eqb decode ent_bases is_empty empty_bytes via mode g [B] c
+  = engine_dbase_single name ent bytes name_eqb decode ent_bases is_empty empty_bytes via g B c.
+Proof. exact engine_dbase_one. Qed.
+
+(** Non-vacuity and refutation on two concrete files: the added file (first) redefines class 2 and adds class 5 (an alias of 2,
+    resolved INSIDE the added file); the bundled file is [xb_file] with data 10.. .  Definitions are (class, stored bases) and
+    carry the block data in the class component (class + 100 * data) so that the two definitions of class 2 differ. *)
+Definition mb_ent : Type := (N * list N)%type.
+Definition mb_bases (c : N) : list N := match c with 1 => [2] | 2 => [3] | 5 => [2] | _ => [] end.
+Definition mb_decode (cs : list N) (data : N) : list mb_ent := map (fun c => (c + 100 * data, mb_bases c)) cs.
+Definition mb_added : list (block N N) := [([2; 3], 7); ([5], 8)].
+Definition mb_files : list (list (block N N)) := [mb_added; xb_file].
+Definition mb_lazy (qs : list N) : list (option (mb_ent * list (option mb_ent))) :=
+  fst (run_defs N mb_ent N N.eqb mb_decode (fun e => snd e) (N.eqb 0) 0 true 3 (map (init N mb_ent N) mb_files) qs).
+Definition mb_eager (m : merge_mode) (c : N) : option (mb_ent * list (option mb_ent)) :=
+  engine_dbase N mb_ent N N.eqb mb_decode (fun e => snd e) (N.eqb 0) 0 true m 3 mb_files c.
+Example c16_multi_example :
+  mb_lazy [2; 1; 5; 4; 9] = map (mb_eager FirstWins) [2; 1; 5; 4; 9]
+  /\ mb_lazy [2] = [Some ((702, [3]), [Some (703, [])])]                       (* the added definition, bases from the added file *)
+  /\ mb_lazy [1] = [Some ((1001, [2]), [Some (1102, [3])])]                    (* class 1 exists only in the bundled file: its base is the bundled class 2 *)
+  /\ mb_eager LastWins 2 = Some ((1102, [3]), [Some (1203, [])])               (* overwritten by the bundled definition *)
+  /\ Forall (file_ok N N (N.eqb 0)) mb_files.
+Proof.
+  repeat split; try (vm_compute; reflexivity).
+  repeat constructor; cbn; intuition discriminate.
+Qed.
+Definition overwrite_merge_breaks : bool :=
+  match mb_lazy [2], mb_eager LastWins 2, mb_eager FirstWins 2 with
+  | [Some ((a, _), _)], Some ((b, _), _), Some ((c, _), _) => negb (a =? b) && (a =? c)
+  | _, _, _ => false
+  end.
